@@ -120,4 +120,4 @@ def assembly_trace(portfolio, prices, timegrid, op, fix=None):
     g = dict(n=n, nc=len(op.c), nl=len(op.l), nu=len(op.u), ncols=A.shape[1], c=vec(op.c), l=vec(op.l), u=vec(op.u),
              nan=bool(np.isnan(np.asarray(op.c, float)).any() or np.isnan(np.asarray(op.l, float)).any() or np.isnan(np.asarray(op.u, float)).any()),
              maprows=mr, rows=rows, nodal=nodal)
-    return dict(T=int(timegrid.T), assets=tabs, g=g, fix=fix if fix is not None else [])
+    return dict(T=int(timegrid.T), assets=tabs, g=g, fix=fix if fix is not None else [], mode='fix' if fix is not None else 'all')
